@@ -10,10 +10,14 @@ Driver ops of C11 (harness/cc/totality*.go):
   cgp <hex>                         -> CleanGenParam: ok <lang hex> k=v;k=v (sorted by key, hex)
   val <prog>                        -> front (parse + validate, includes first): ok | err:<class> | panic:<class>
   und <prog> <file index> <type>    -> UnderlyingType in that file: ok <type>
+  gcv <prog> <type> <value>         -> the main file gets `const <type> zz_probe = <value>`; rejected (front end
+                                       refuses it) | generateConstantValue(type, value): ok | panic:<class>
+Value encoding (prefix tokens): VS/<hex> VB/<0|1> VI/<int> VD VR/<identifier> VL/<n>/v.. VM/<n>/k/v..
 Program encoding: `/`-separated tokens, see `(*c11GProg).enc` in totality_gen.go.
 -/
 import Driver.Util
 import FV.Model.Compile
+import FV.Model.ConstValue
 
 namespace Driver
 open FV FV.Compile
@@ -36,6 +40,7 @@ def verrName : VErr → String
 
 def cpanicName : CPanic → String
   | .index => "index" | .slice => "sliceBounds" | .stackOverflow => "stackOverflow"
+  | .typeAssert => "typeAssert" | .explicit => "explicit"
 
 def showC (f : α → String) : CRes α → String
   | .ok a => f a
@@ -165,6 +170,30 @@ def parseTy (s : String) : Option Ty :=
   | some (t, []) => some t
   | _ => none
 
+partial def val : P Val := do
+  match (← tok) with
+  | "VS" => do
+    match nameOfHex (← tok) with
+    | some n => pure (.str n)
+    | none => failure
+  | "VB" => do pure (.bool ((← tok) == "1"))
+  | "VI" => do pure (.int (← int))
+  | "VD" => pure .dbl
+  | "VR" => do pure (.ident (← nm))
+  | "VL" => do pure (.list (← many val))
+  | "VM" => do
+    let kvs ← many (do
+      let k ← val
+      let v ← val
+      pure (k, v))
+    pure (.map kvs)
+  | _ => failure
+
+def parseVal (s : String) : Option Val :=
+  match val.run (s.splitOn "/") with
+  | some (v, []) => some v
+  | _ => none
+
 def showTy : Ty → String
   | .named n => String.ofList n
   | .list e => "list<" ++ showTy e ++ ">"
@@ -213,6 +242,21 @@ def stepCompile (op : String) (args : List String) : Option String :=
     let t ← parseTy t
     let ctx := ctxOf p f
     pure (showC (fun r => "ok " ++ showTy r) (underlying ctx (typedefLimit ctx + 2) t))
+  | "gcv", [e, t, v] => do
+    let p ← parseProg e
+    let t ← parseTy t
+    let v ← parseVal v
+    match p with
+    | [] => none
+    | f :: rest =>
+      let ref := match v with
+        | .ident id => some id
+        | _ => none
+      let f' := { f with consts := f.consts ++ [{ name := "zz_probe".toList, ty := t, ref := ref }] }
+      let p' := f' :: rest
+      match front p' with
+      | .ok _ => pure (showC (fun _ => "ok") (genConst (ctxOf p' f') 1000 t v))
+      | _ => pure "rejected"
   | _, _ => none
 
 end Driver
